@@ -38,9 +38,11 @@ RULE = (
     "(6 trees) ^ 3 plus 10 states ^ 4; one fresh Kconfig per sync; crash-free run of every history, then for every "
     "sync every crash point (before each mutating FS operation: mkdir per level, truncating touch, open(auto.conf,'w'); inside "
     "the auto.conf write at 0 / every line boundary / middle of last line / all-but-one byte), each on a fresh copy of the "
-    "pre-state: crash, rerun, repeat, continue the history (repeat / continuation are merged with the crash-free run when the "
-    "recovered on-disk state is byte-identical to the crash-free state, counters *_merged_* / *_executed). evaluations = executed (history, crash point) pairs + crash-free "
-    "histories. distinct_nontrivial counts distinct (changed set, touched set) pairs of crash-free syncs with a non-empty "
+    "pre-state: crash, rerun, repeat, continue the history. State merging: a crash in sync i and its recovery depend only on the "
+    "prefix h[:i+1], so they are executed once per distinct prefix; the repeat / continuation after a recovery are merged with "
+    "the crash-free run of every history with that prefix when the recovered on-disk state is byte-identical to the crash-free "
+    "state (counters *_merged_*), otherwise executed for every suffix (*_executed). evaluations = executed (prefix, crash point) "
+    "pairs + crash-free histories + executed continuations. distinct_nontrivial counts distinct (changed set, touched set) pairs of crash-free syncs with a non-empty "
     "changed set and distinct (crash operation, touched-in-crashed-run, touched-in-rerun, changed set) tuples of crashed syncs."
 )
 ASSUMPTIONS = [
@@ -85,7 +87,7 @@ _VERSIONS = {
     # option added (with an alias), option with alias removed, option without alias removed, option retyped
     "all": ["FOO_BAR", "B", "N:string", "S", "U", "NEWI", "M", "ADDED"],
     "add": ["FOO_BAR", "B", "N", "S", "U", "NEWP", "NEWI", "M", "P_RM", "ADDED"],
-    "rm_alias": ["FOO_BAR", "B", "N", "S", "U", "NEWI", "P_RM"],  # NEWP (plain alias, bool) and M (plain alias, int) removed
+    "rm_alias": ["FOO_BAR", "B", "N", "S", "U", "P_RM"],  # NEWP (plain alias, bool), M (plain alias, int), NEWI (inverted alias) removed
     "rm_plain": ["FOO_BAR", "B", "N", "S", "NEWP", "NEWI", "M"],  # U and P_RM removed (no aliases)
     "retype": ["FOO_BAR", "B", "N:string", "S", "U", "NEWP", "NEWI", "M", "P_RM"],
 }
@@ -119,18 +121,19 @@ QUICK_STATES = [(v, c) for v in ("base", "all") for c in range(len(CONFIGS_QUICK
 WIDE_STATES = QUICK_STATES + [(v, c) for v in ("add", "rm_alias", "rm_plain", "retype") for c in (0, 3, 5)]
 # thorough, length 4: both trees, five configurations
 LONG_STATES = [(v, c) for v in ("base", "all") for c in (0, 1, 2, 4, 5)]
+ALPHABETS = {"quick": QUICK_STATES, "wide": WIDE_STATES, "long": LONG_STATES}
 
 
 def items(tier: str, seed: int):
     out = []
     if tier == "quick":
         for h in itertools.product(QUICK_STATES, repeat=3):
-            out.append({"history": list(h)})
+            out.append({"history": list(h), "alphabet": "quick"})
     else:
         for h in itertools.product(WIDE_STATES, repeat=3):  # superset of the quick tier
-            out.append({"history": list(h)})
+            out.append({"history": list(h), "alphabet": "wide"})
         for h in itertools.product(LONG_STATES, repeat=4):
-            out.append({"history": list(h)})
+            out.append({"history": list(h), "alphabet": "long"})
     return out
 
 
@@ -280,8 +283,9 @@ class Run:
     """One history.  All findings go through self.find(); crash-phase findings already present in the crash-free run
     at the same sync are dropped."""
 
-    def __init__(self, w: World, history: List[Tuple[str, Dict[str, str]]], r: common.Result, case_base: dict):
-        self.w, self.h, self.r, self.case_base = w, history, r, case_base
+    def __init__(self, w: World, history: List[Tuple[str, Dict[str, str]]], r: common.Result):
+        self.w, self.h, self.r = w, history, r
+        self.siblings: Dict[tuple, "Run"] = {}
         self.hdrs = [w.header(v, c) for v, c in history]
         self.free_keys: List[set] = [set() for _ in history]
         self.pre: List[list] = []
@@ -297,7 +301,8 @@ class Run:
 
     # ---- reporting
     def case(self, upto: int, crash: Optional[dict]) -> dict:
-        c = dict(self.case_base)
+        c: Dict[str, Any] = {"versions": {v: self.w.versions[v] for v in sorted({v for v, _ in self.h[: upto + 1]})}}
+        c["aliases"] = {a: list(t) for a, t in sorted(self.w.aliases.items())}
         c["history"] = [[v, cfg] for v, cfg in self.h[: upto + 1]]
         c["crash"] = crash
         return c
@@ -395,7 +400,7 @@ class Run:
         self.r.evals += 1
 
     # ---- one crash point of sync i
-    def crash_at(self, i: int, point: Tuple[int, Optional[int]]) -> None:
+    def crash_at(self, i: int, point: Tuple[int, Optional[int]], alphabet: Optional[list] = None) -> None:
         w, r = self.w, self.r
         ver, cfg = self.h[i]
         pver, prev = self.prev_of(i)
@@ -456,18 +461,48 @@ class Run:
         if i in self.post_rep and state == self.post_rep[i]:
             r.count("continuation_merged_with_crash_free_state")
             return
-        r.count("continuation_executed")
-        for j in range(i + 1, min(len(self.h), self.ok_upto)):
-            r.count("continuation_syncs")
-            if not self.observed_sync(j, crash, "after_recovery"):
-                return
+        if alphabet is None:
+            r.count("continuation_executed")
+            for j in range(i + 1, min(len(self.h), self.ok_upto)):
+                r.count("continuation_syncs")
+                if not self.observed_sync(j, crash, "after_recovery"):
+                    return
+            return
+        # This item represents ALL histories with the prefix h[:i+1]; the recovered state is not the crash-free one, so the
+        # continuation is executed for every suffix over the alphabet (findings already made by a suffix's own crash-free
+        # run are dropped through that sibling's free_keys).
+        for suffix in itertools.product(alphabet, repeat=len(self.h) - i - 1):
+            key = tuple((v, tuple(sorted(c.items()))) for v, c in suffix)
+            sib = self.siblings.get(key)
+            if sib is None:
+                sib = Run(w, self.h[: i + 1] + list(suffix), common.Result())
+                sib.crash_free()
+                sib.r = r
+                if len(self.siblings) < 2000:
+                    self.siblings[key] = sib
+            faultfs.restore_state(w.dir, state, EPOCH_NS)
+            observe(w.dir)
+            r.count("continuation_executed")
+            r.evals += 1
+            for j in range(i + 1, min(len(sib.h), sib.ok_upto)):
+                r.count("continuation_syncs")
+                if not sib.observed_sync(j, crash, "after_recovery"):
+                    break
 
-    def all_crashes(self, only: Optional[dict] = None) -> None:
+    def all_crashes(self, only: Optional[dict] = None, alphabet: Optional[list] = None) -> None:
+        """alphabet given (explorer): the crash points of sync i are executed only by the history whose suffix after i is
+        alphabet[0] repeated -- the representative of all histories sharing h[:i+1] (a crash in sync i and its recovery do
+        not depend on later states) -- and a recovered state that differs from the crash-free one fans out over all suffixes.
+        alphabet None (replay of one case): this history only."""
         for i in range(min(len(self.h), self.ok_upto)):
+            if only is None and alphabet is not None and any(s != alphabet[0] for s in self.h[i + 1 :]):
+                self.r.count("syncs_covered_by_prefix_representative")
+                continue
+            self.r.count("syncs_crash_enumerated")
             for point in faultfs.crash_points(self.logs[i]):
                 if only is not None and (only["sync"] != i or tuple(only["point"]) != point):
                     continue
-                self.crash_at(i, point)
+                self.crash_at(i, point, alphabet if only is None else None)
 
 
 def _is_line_boundary(data: Optional[bytes], c: int) -> bool:
@@ -491,11 +526,9 @@ def run_item(item) -> common.Result:
     r.programs = 1
     w = world()
     hist = [(v, CONFIGS_WIDE[c]) for v, c in item["history"]]
-    vers = sorted({v for v, _ in hist})
-    base = {"versions": {v: w.versions[v] for v in vers}, "aliases": {a: list(t) for a, t in ALIASES.items()}}
-    run = Run(w, hist, r, base)
+    run = Run(w, hist, r)
     run.crash_free()
-    run.all_crashes()
+    run.all_crashes(alphabet=[(v, CONFIGS_WIDE[c]) for v, c in ALPHABETS[item["alphabet"]]])
     r.sample = {
         "history": [[v, cfg] for v, cfg in hist],
         "tree_of_first_state": w.versions[hist[0][0]]["Kconfig"],
@@ -510,7 +543,7 @@ def replay(case) -> List[dict]:
     r = common.Result()
     w = World(case["versions"], case["aliases"])
     hist = [(v, dict(cfg)) for v, cfg in case["history"]]
-    run = Run(w, hist, r, {"versions": case["versions"], "aliases": case["aliases"]})
+    run = Run(w, hist, r)
     run.crash_free()
     if case.get("crash"):
         run.all_crashes(only=case["crash"])
